@@ -9,6 +9,31 @@ HOOK_COMMITS = subprocess.run(
 TECH = "deterministic simulation with fault injection: seeded search over generated histories/schedules/fault sequences against the real code under a simulated clock, invariant + history oracles, tape shrinking, replay files"
 
 CHECKS = {
+    "C11": dict(
+        cat="exploration", ref="DESIGN.md §5 C11",
+        text="Seeded exploration on a real service whose handler is scripted: lookups with targets that are random, a peer's id, adjacent to a peer's id (request lists containing 0) or the local id; every FINDNODE is answered by an honest responder model (exactly what the protocol and this implementation prescribe, any packet split) or a malicious one (off-distance records, requester's own record, duplicates, totals 0..2^64-1, surplus packets, packets after completion) or a failure. Accepted records (Discovered events, packet by packet) must be returned records at the requested distances, honest complete answers must be accepted completely, the ban list must contain a responder iff it returned an off-distance record in its first packet and never an honest one, packets beyond the 15th or after completion must be ignored.",
+        note="Trusted: honest-responder model of the harness; log2 distances from raw id bytes; 'accepted' = reported as Event::Discovered. The handler is a script that honours the handler's contract (checked separately by C04).",
+        technique="deterministic simulation (W-S service world, scripted handler): generated responder behaviour, per-response acceptance and ban oracle"),
+    "C12": dict(
+        cat="exploration", ref="DESIGN.md §5 C12",
+        text="Seeded exploration of event sequences (sessions, discovered records of every shape and seq relation, PONGs, failures, add_enr / remove_node / disconnect_node, idle time) against a real service in IPv4 / IPv6 / dual-stack mode with three table filters; the routing table is read through the public API after every step: entries contactable in the IP mode (independent re-statement), passing the filter, never the local node, only ids that were the subject of a session or an explicit add, record changes only to a strictly higher seq. On real handlers (W-H) crafted handshakes check that an incoming Established carries a record whose address equals the observed source.",
+        note="Trusted: the scripted handler honours the real handler's contract for Established (address consistent, never an older record than the service knows).",
+        technique="deterministic simulation (W-S service world + W-H adversary): generated event sequences, table invariant after every step"),
+    "C14": dict(
+        cat="exploration", ref="DESIGN.md §5 C14",
+        text="Seeded exploration of served requests on a real service with tables of up to 61 real records padded to the 300-byte limit and max_nodes_response 1..48: every FINDNODE answer is compared with the table read back through the public API (exact set when it fits, allowed subset sizes when capped, requester never returned, own record iff 0 requested, ids and totals) and every NODES packet is encrypted with AES-GCM and encoded with the real packet codec to measure its wire size (<= 1280); every PING from a non-zero port gets exactly one PONG with the current seq and the observed address.",
+        note="Trusted: raw-byte log2 distance of the oracle; wire size measured with the crate's own codec and cipher through the facade.",
+        technique="deterministic simulation (W-S service world, scripted handler): generated requests and table contents, reference answer oracle, real-codec size measurement"),
+    "C17": dict(
+        cat="exploration", ref="DESIGN.md §5 C17",
+        text="Seeded exploration of PONG vote sequences (voter, address, simulated time) against a real service: minimum 2..6, vote durations 8-120 s, eligible and ineligible voters, opinion changes, liars below the minimum, idle gaps up to a whole vote duration; whenever the advertised UDP address changes the harness's vote ledger must justify it (minimum reached, clear-majority margin over every rival), the sequence number must have grown, the record must verify and exactly one SocketUpdated event per change must have been emitted.",
+        note="Trusted: the harness's vote ledger (latest unexpired vote per eligible voter). IPv4 mode only.",
+        technique="deterministic simulation (W-S service world, scripted handler): simulated time around vote expiry, justification oracle at every address change"),
+    "C20": dict(
+        cat="exploration", ref="DESIGN.md §5 C20",
+        text="Seeded exploration of application behaviour towards concurrently delivered TALK requests on a real service: respond / drop / hold in any order, event stream drained, never drained (overflow) or dropped, shutdown at any point followed by respond/drop of held requests; while running each TALKREQ must get exactly one TALKRESP with its id and address (payload or empty), after shutdown respond() must fail cleanly; any panic is a violation.",
+        note="Trusted: after shutdown the scripted handler closes its channel like the real handler task.",
+        technique="deterministic simulation (W-S service world, scripted handler): generated application schedules incl. shutdown point, exactly-once oracle over HandlerIn::Response"),
     "C01": dict(
         cat="exploration", ref="DESIGN.md §5 C01",
         text="Seeded exploration with an adversary that holds no honest secret key (full wire tap, own keys, injection from any source address): random packets and forged handshakes claiming genuine ids with every combination of attached record, signer, ephemeral key and source address, interleaved with genuine traffic and three states of the victim's knowledge. History oracle: every identity effect (Established, Request, Response, UnverifiableEnr, recipient-side session keys from the key log) must be justified by a delivered handshake whose id-signature verifies under the claimed id's registered public key over one of the node's own WHOAREYOUs to that address, or by the node's own dial of that contact.",
